@@ -106,12 +106,29 @@ pub fn run(ctx: &Ctx) {
             }
         }
     }
+    // seeds whose bytes look like parameter bytes / end markers / padding, right behind parameter
+    // lists of 1, 2, 7 and 8 entries (the 8-entry list has no end marker of its own)
+    for (hi, h) in ALL_HASHES.iter().enumerate() {
+        for l in [1usize, 2, 7, 8] {
+            for (bi, b) in [0x00u8, 0x14, 0x53, 0xff, 0x80].iter().enumerate() {
+                if (hi + l + bi) % 2 == 0 {
+                    let total = 1u64 << (2 * l);
+                    grid.push(SignCase { hash: *h, levels: vec![(8, 2); l], seed: gen::SeedSpec::Pattern(5, *b, 0), counter: total - 1 - (bi as u64 % total.min(3)), counter_class: "marker-like-seed".into(), msg: gen::MsgSpec { len: 5, tag: l as u64 } });
+                    grid.push(SignCase { hash: *h, levels: vec![(8, 2); l], seed: gen::SeedSpec::Pattern(if bi % 2 == 0 { 2 } else { 3 }, 0, *b as u64), counter: (bi as u64) % total, counter_class: "marker-like-seed".into(), msg: gen::MsgSpec { len: 5, tag: l as u64 } });
+                    // one 0xff / 0x00 byte at seed position 1, in the middle, at the end
+                    for pos in [1u8, 7, (h.n() - 1) as u8] {
+                        grid.push(SignCase { hash: *h, levels: vec![(8, 2); l], seed: gen::SeedSpec::Pattern(if bi % 2 == 0 { 2 } else { 3 }, pos, 77 + *b as u64), counter: (pos as u64) % total, counter_class: "marker-like-seed".into(), msg: gen::MsgSpec { len: 5, tag: l as u64 } });
+                    }
+                }
+            }
+        }
+    }
     // listed known finding siglen>65535: always exercised
     grid.push(SignCase { hash: HashId::Sha256_256, levels: vec![(1, 2); 8], seed: gen::SeedSpec::Random(8), counter: 9, counter_class: "siglen".into(), msg: gen::MsgSpec { len: 10, tag: 8 } });
     // a child tree of height 15 (type code 7) below a small root, at a leaf beyond 8 bits
     grid.push(SignCase { hash: HashId::Shake256_128, levels: vec![(8, 2), (2, 15)], seed: gen::SeedSpec::Random(15), counter: 2 * 32768 + 30_000, counter_class: "h15-child".into(), msg: gen::MsgSpec { len: 21, tag: 15 } });
     // messages longer than 64 KiB
-    for (k, len) in [65_535usize, 65_536, 65_537, 70_001, 131_072, 200_000].iter().enumerate() {
+    for (k, len) in [65_535usize, 65_536, 65_537, 70_001, 131_070, 131_071, 131_072, 196_605, 196_607, 200_000].iter().enumerate() {
         for h in [ALL_HASHES[k % 6], ALL_HASHES[(k + 3) % 6]] {
             grid.push(SignCase { hash: h, levels: vec![(8, 2)], seed: gen::SeedSpec::Random(k as u64), counter: (k % 4) as u64, counter_class: "msg-64k".into(), msg: gen::MsgSpec { len: *len, tag: k as u64 } });
         }
@@ -135,6 +152,14 @@ pub fn run(ctx: &Ctx) {
         }
     }
     ctx.enumerate("h10_every_leaf", h10.len() as u64, true, |i| h10[i as usize].clone(), |c| check_byte_exact(ctx, c));
+
+    // messages whose LM-OTS digest has a structured content (zero runs, repeated bytes, aligned
+    // zero / equal words, leading or trailing 0x00 / 0xff), found by a targeted search
+    let sc = structured_cases(ctx);
+    ctx.enumerate("structured_digests", sc.len() as u64, false, |i| sc[i as usize].clone(), |c: &StructCase| check_structured(ctx, c));
+    ctx.require_class("structured_digests", "sha256_256|w8|four-equal-neighbours");
+    ctx.require_class("structured_digests", "sha256_192|w4|equal-word-aligned");
+    ctx.require_class("structured_digests", "shake256_128|w1|leading-two-zero-bytes");
 
     // from key generation onwards: the key pair as keygen returns it (seed object built either way,
     // with / without aux data), signed with, and checked against the reference signer / verifier
